@@ -208,6 +208,27 @@ pub fn path_hash(path: &[loom::verif::Branch]) -> u64 {
     crate::rng::hash_bytes(&bytes)
 }
 
+/// Known finding K3 (an RMW is not atomic with respect to a racing plain store) can only explain
+/// an execution of a program in which some atomic is updated by a read-modify-write in one thread
+/// and plainly stored to by another: attribution is not even attempted elsewhere (a violation in
+/// a program without that shape was once hidden behind K3 - seeded change C17-m8, DESIGN §12).
+pub fn k3_applicable(p: &Program) -> bool {
+    for (t, ops) in p.threads.iter().enumerate() {
+        for op in ops {
+            let a = match op.inner() {
+                Op::Swap { a, .. } | Op::FetchAdd { a, .. } | Op::Cas { a, .. } | Op::FetchUpdate { a, .. } => *a,
+                _ => continue,
+            };
+            for (u, ops2) in p.threads.iter().enumerate() {
+                if u != t && ops2.iter().any(|o| matches!(o.inner(), Op::Store { a: b, .. } | Op::AWithMut { a: b, .. } if *b == a)) {
+                    return true;
+                }
+            }
+        }
+    }
+    false
+}
+
 pub fn run_case(p: &Program, cfg: &Config, opts: &CaseOpts, rng: &mut Rng) -> CaseReport {
     // a lock guard dropped by a caught unwinding panic poisons the lock: acquiring it again
     // panics (`lock().unwrap()`), exactly when the reference says so
@@ -348,7 +369,7 @@ pub fn run_case(p: &Program, cfg: &Config, opts: &CaseOpts, rng: &mut Rng) -> Ca
     // ---- O2 on completed iterations
     if let Some((it, h, reason, path)) = &c.first_invalid {
         let mut known = None;
-        if opts.attribute {
+        if opts.attribute && k3_applicable(p) {
             let mut dev = MachineCfg::may();
             dev.dev = Deviation { at_ignores_plain_stores: true };
             if replay_may(p, h, &dev, false).map(|a| !a.results.is_empty()).unwrap_or(false) {
@@ -510,7 +531,7 @@ pub fn run_case(p: &Program, cfg: &Config, opts: &CaseOpts, rng: &mut Rng) -> Ca
                     Err(e) => {
                         if opts.o2 {
                             let mut known = None;
-                            if opts.attribute {
+                            if opts.attribute && k3_applicable(p) {
                                 let mut dev = MachineCfg::may();
                                 dev.dev = Deviation { at_ignores_plain_stores: true };
                                 if replay_may(p, &h, &dev, true).map(|a| !a.results.is_empty()).unwrap_or(false) {
